@@ -119,6 +119,7 @@ type moduleSpec struct {
 	Pkg     string       `json:"pkg"`  // package directory label, e.g. "//" or "//a"
 	File    string       `json:"file"` // e.g. "lib0.dawn"
 	Loads   []int        `json:"loads,omitempty"`
+	LoadExt []int        `json:"loads_ext,omitempty"` // required projects whose lib.dawn this module loads
 	Consts  []globalSpec `json:"consts,omitempty"`
 	Funcs   []helperSpec `json:"funcs,omitempty"`
 	Yields  int          `json:"yields,omitempty"`
@@ -219,6 +220,7 @@ type pkgSpec struct {
 	Predecl  bool         `json:"predeclared_globals,omitempty"`
 	LoadsBld []string     `json:"loads_build,omitempty"` // other packages' BUILD.dawn loaded (C06)
 	LoadsMod []int        `json:"loads_mod,omitempty"`   // helper modules loaded explicitly (C06)
+	LoadsExt []int        `json:"loads_ext,omitempty"`   // required projects whose lib.dawn is loaded explicitly
 	Yields   int          `json:"yields,omitempty"`
 }
 
@@ -228,6 +230,7 @@ type projSpec struct {
 	Targets  []targetSpec      `json:"targets"`
 	Files    map[string]string `json:"files,omitempty"` // source files: path relative to the root -> content
 	FlagArg  string            `json:"flag_arg,omitempty"`
+	Exts     []extSpec         `json:"required_projects,omitempty"` // see ext.go
 }
 
 func pkgDir(pkg string) string { return strings.TrimPrefix(pkg, "//") }
@@ -283,6 +286,11 @@ func (m *moduleSpec) render(p *projSpec) string {
 		}
 		if len(syms) > 0 {
 			fmt.Fprintf(&sb, "load(%q, %s)\n", o.label(), strings.Join(syms, ", "))
+		}
+	}
+	for _, e := range m.LoadExt {
+		if e < len(p.Exts) {
+			fmt.Fprintf(&sb, "load(\"%s//:lib.dawn\", \"ext%d_f\", \"EXT%d_K\")\n", extAlias(e), e, e)
 		}
 	}
 	sb.WriteString(strings.Repeat("\n", m.Blank))
@@ -361,6 +369,26 @@ func (p *projSpec) renderBuild(pk *pkgSpec) string {
 		}
 		sort.Strings(syms)
 		fmt.Fprintf(&sb, "load(%q, %s)\n", p.Modules[mi].label(), strings.Join(quoteAll(syms), ", "))
+	}
+	usedExt := map[int]bool{}
+	for i := range p.Targets {
+		if t := &p.Targets[i]; t.Pkg == pk.Path {
+			for _, r := range t.Refs {
+				if (r.Kind == "extconst" || r.Kind == "extfunc") && r.Mod < len(p.Exts) {
+					usedExt[r.Mod] = true
+				}
+			}
+		}
+	}
+	for _, e := range pk.LoadsExt {
+		if e < len(p.Exts) {
+			usedExt[e] = true
+		}
+	}
+	for e := range p.Exts {
+		if usedExt[e] {
+			fmt.Fprintf(&sb, "load(\"%s//:lib.dawn\", \"ext%d_f\", \"EXT%d_K\")\n", extAlias(e), e, e)
+		}
 	}
 	for i, l := range pk.LoadsBld {
 		fmt.Fprintf(&sb, "load(%q, mark_%d = \"MARK\")\n", l, i)
@@ -470,6 +498,10 @@ func (p *projSpec) renderTarget(t *targetSpec) string {
 			args = append(args, r.Name)
 		case "libfunc":
 			args = append(args, r.Name+"()")
+		case "extconst":
+			args = append(args, fmt.Sprintf("EXT%d_K", r.Mod))
+		case "extfunc":
+			args = append(args, fmt.Sprintf("ext%d_f()", r.Mod))
 		case "default":
 			params = append(params, fmt.Sprintf("%s=%s", r.Name, r.Val.render()))
 			args = append(args, r.Name)
@@ -603,7 +635,7 @@ func (p *projSpec) depReads(t *targetSpec) []string {
 
 // files returns every file of the project (path relative to the root -> content).
 func (p *projSpec) files() map[string]string {
-	out := map[string]string{"dawn.toml": ""}
+	out := map[string]string{"dawn.toml": p.rootToml()}
 	for i := range p.Packages {
 		pk := &p.Packages[i]
 		out[filepath.Join(pkgDir(pk.Path), "BUILD.dawn")] = p.renderBuild(pk)
